@@ -7,13 +7,15 @@ import SoyVerif.Ops.Common
 import SoyVerif.Ops.RawText
 import SoyVerif.Ops.Ast
 import SoyVerif.Ops.Parser
+import SoyVerif.Ops.Check
 
 open SoyVerif SoyVerif.Ops
 
 def allOps : List Op :=
   Ops.RawText.ops ++
   Ops.Ast.ops ++
-  Ops.Parser.ops
+  Ops.Parser.ops ++
+  Ops.Check.ops
 
 def handle (op : String) (f : List String) : String :=
   match allOps.find? (·.1 == op) with
